@@ -325,7 +325,7 @@ func (u *Unit) mergeIncoming(fr *frame, b *ssa.BasicBlock, inc []edgeState) *Sta
 			st.Env[p] = vals[k]
 		}
 		if p.Comment != "" {
-			st.Names[p.Comment] = nameRef{V: st.Env[p]}
+			st.Names[strings.ReplaceAll(p.Comment, ".", "_")] = nameRef{V: st.Env[p]}
 		}
 	}
 	return st
@@ -481,6 +481,7 @@ type famWrite struct {
 	freshW   bool         // some write in the loop goes to an object allocated in the same iteration
 	subBases []subBase    // locations inside by-value embedded structs of stable bases
 	ranges   []ssa.Value  // stable slice values whose cells are written
+	items    []modItem    // locations named by callee contracts, evaluated in the loop-entry state
 }
 
 type subStep struct {
@@ -869,7 +870,9 @@ func (u *Unit) runLoopCut(fr *frame, L *Loop, spec *LoopSpec, entries []edgeStat
 	if spec.ModAll {
 		ws.all, ws.why = true, "modifies *"
 	}
+	u.scanEntry = entrySt
 	u.scanWrites(fr, L.Blocks, ws, 0)
+	u.scanEntry = nil
 	head := entrySt.Clone()
 	if ws.all {
 		u.havocAll(head, fmt.Sprintf("loop %d: %s", L.Ordinal, ws.why))
@@ -902,6 +905,20 @@ func (u *Unit) runLoopCut(fr *frame, L *Loop, spec *LoopSpec, entries []edgeStat
 					ref = u.subAddr(ref, stp.T, stp.I)
 				}
 				cur = Store(cur, ref, u.ctx.Fresh("hv", arrVal(fw.sort)))
+			}
+			for _, it := range fw.items {
+				switch {
+				case it.rngArr != nil:
+					cur = u.ctx.Named("H", cur)
+					nh := u.ctx.Fresh("H", fw.sort)
+					u.assume(head, Term{fmt.Sprintf("(forall ((p Int)) (! (=> (not %s) (= (select %s p) (select %s p))) :pattern ((select %s p))))", it.inRange("p"), nh.S, cur.S, nh.S), SBool}, "loop-callee-slice-cells-havoc")
+					cur = nh
+				case it.key != nil:
+					inner := Select(cur, it.idx)
+					cur = Store(cur, it.idx, Store(inner, *it.key, u.ctx.Fresh("hv", arrVal(inner.Sort))))
+				default:
+					cur = Store(cur, it.idx, u.ctx.Fresh("hv", arrVal(fw.sort)))
+				}
 			}
 			for _, rv := range fw.ranges {
 				sv, ok := u.evalStable(entrySt, rv).(SliceV)
@@ -960,7 +977,7 @@ func (u *Unit) runLoopCut(fr *frame, L *Loop, spec *LoopSpec, entries []edgeStat
 		u.assumeResultOld(head, override[p])
 		head.Env[p] = override[p]
 		if p.Comment != "" {
-			head.Names[p.Comment] = nameRef{V: override[p]}
+			head.Names[strings.ReplaceAll(p.Comment, ".", "_")] = nameRef{V: override[p]}
 		}
 	}
 	// values defined inside the loop are stale: drop them so that uses are re-evaluated
@@ -1007,7 +1024,7 @@ func (u *Unit) runLoopCut(fr *frame, L *Loop, spec *LoopSpec, entries []edgeStat
 				v := u.val(e.st, p.Edges[idx])
 				bst.Env[p] = v
 				if p.Comment != "" {
-					bst.Names[p.Comment] = nameRef{V: v}
+					bst.Names[strings.ReplaceAll(p.Comment, ".", "_")] = nameRef{V: v}
 				}
 			}
 		}
